@@ -520,8 +520,8 @@ func (c *Chunker) buildSections(doc *model.Document) []*Section {
 	var preambleContent []ContentElement
 	var preambleStartPage, preambleEndPage int
 
-	for pageNum, page := range doc.Pages {
-		pageIndex := pageNum + 1
+	for _, page := range doc.Pages {
+		pageIndex := page.Number
 
 		if page.Layout == nil {
 			continue
@@ -1085,16 +1085,14 @@ func (c *Chunker) chunkByParagraphs(doc *model.Document, chunkIndex *int) []*Chu
 
 	// Create a single section from all content
 	section := &Section{
-		Title:     doc.Metadata.Title,
-		Path:      nil,
-		Content:   make([]ContentElement, 0),
-		PageStart: 1,
-		PageEnd:   doc.PageCount(),
+		Title:   doc.Metadata.Title,
+		Path:    nil,
+		Content: make([]ContentElement, 0),
 	}
 
 	// Collect all paragraphs
-	for pageNum, page := range doc.Pages {
-		pageIndex := pageNum + 1
+	for _, page := range doc.Pages {
+		pageIndex := page.Number
 		if page.Layout == nil {
 			continue
 		}
@@ -1122,6 +1120,9 @@ func (c *Chunker) chunkByParagraphs(doc *model.Document, chunkIndex *int) []*Chu
 	if len(section.Content) == 0 {
 		return chunks
 	}
+
+	section.PageStart = section.Content[0].Page
+	section.PageEnd = section.Content[len(section.Content)-1].Page
 
 	return c.splitSectionByParagraphs(section, chunkIndex, doc.Metadata.Title)
 }
